@@ -169,10 +169,13 @@ func (e *Extractor) extractPrefixes(re *syntax.Regexp, depth int) *Seq {
 		}
 		// Direct literal: "hello" → ["hello"]
 		bytes := runeSliceToBytes(re.Rune)
+		complete := true
 		if len(bytes) > e.config.MaxLiteralLen {
+			// A truncated literal is only a prefix of the match, not the match.
 			bytes = bytes[:e.config.MaxLiteralLen]
+			complete = false
 		}
-		return NewSeq(NewLiteral(bytes, true))
+		return NewSeq(NewLiteral(bytes, complete))
 
 	case syntax.OpConcat:
 		// Cross-product expansion through the entire concatenation.
@@ -589,11 +592,13 @@ func (e *Extractor) extractSuffixes(re *syntax.Regexp, depth int) *Seq {
 		}
 		// Direct literal
 		bytes := runeSliceToBytes(re.Rune)
+		complete := true
 		if len(bytes) > e.config.MaxLiteralLen {
-			// For suffix, take the LAST MaxLiteralLen bytes
+			// For suffix, take the LAST MaxLiteralLen bytes (no longer the whole match)
 			bytes = bytes[len(bytes)-e.config.MaxLiteralLen:]
+			complete = false
 		}
-		return NewSeq(NewLiteral(bytes, true))
+		return NewSeq(NewLiteral(bytes, complete))
 
 	case syntax.OpConcat:
 		// Concatenation: take suffix from LAST sub-expression and extend with preceding literals
@@ -659,11 +664,13 @@ func (e *Extractor) extractSuffixes(re *syntax.Regexp, depth int) *Seq {
 				copy(newBytes, prefix)
 				copy(newBytes[len(prefix):], lit.Bytes)
 				// Truncate if too long
+				complete := lit.Complete
 				if len(newBytes) > e.config.MaxLiteralLen {
 					// For suffix, keep the last MaxLiteralLen bytes
 					newBytes = newBytes[len(newBytes)-e.config.MaxLiteralLen:]
+					complete = false
 				}
-				lits[j] = NewLiteral(newBytes, lit.Complete)
+				lits[j] = NewLiteral(newBytes, complete)
 			}
 			suffixes = NewSeq(lits...)
 
@@ -908,10 +915,12 @@ func (e *Extractor) generateCaseFoldVariants(foldSets [][]rune, prefixLen int) *
 	lits := make([]Literal, 0, len(variants))
 	for _, v := range variants {
 		b := runeSliceToBytes(v)
+		complete := true
 		if len(b) > e.config.MaxLiteralLen {
 			b = b[:e.config.MaxLiteralLen]
+			complete = false
 		}
-		lits = append(lits, NewLiteral(b, true))
+		lits = append(lits, NewLiteral(b, complete))
 	}
 	return NewSeq(lits...)
 }
@@ -984,10 +993,12 @@ func (e *Extractor) expandCharClass(re *syntax.Regexp) *Seq {
 		for r := lo; r <= hi; r++ {
 			bytes := []byte(string(r))
 			// Truncate if exceeds MaxLiteralLen
+			complete := true
 			if len(bytes) > e.config.MaxLiteralLen {
 				bytes = bytes[:e.config.MaxLiteralLen]
+				complete = false
 			}
-			lits = append(lits, NewLiteral(bytes, true))
+			lits = append(lits, NewLiteral(bytes, complete))
 
 			// Respect MaxLiterals limit
 			if len(lits) >= e.config.MaxLiterals {
